@@ -510,7 +510,14 @@ spif_mbuff_ncmp(spif_mbuff_t self, spif_mbuff_t other, spif_memidx_t cnt)
 spif_cmp_t
 spif_mbuff_ncmp_with_ptr(spif_mbuff_t self, spif_byteptr_t other, spif_memidx_t cnt)
 {
-    return spif_mbuff_cmp_with_ptr(self, other, cnt);
+    int c;
+
+    SPIF_OBJ_COMP_CHECK_NULL(self, other);
+    c = memcmp(SPIF_MBUFF_BUFF(self), other, MIN(self->len, cnt));
+    if ((c == 0) && (self->len < cnt)) {
+        return SPIF_CMP_LESS;
+    }
+    return SPIF_CMP_FROM_INT(c);
 }
 
 spif_bool_t
